@@ -47,28 +47,121 @@ def run(ctx) -> None:
     for m in ("itertools._Grouper.__anext__", "itertools.GroupBy.__anext__", "itertools._GroupByState.step",
               "itertools._GroupByState.maybe_step", "itertools._GroupByState.consume_value"):
         ctx.unit(m)
-    r16_1_3_group(ctx)
-    r16_2(ctx)
-    r16_3_state(ctx)
-    r16_4(ctx)
+    N = Names(ctx)
+    ctx.tables["derived attribute names"] = dict(vars(N))
+    r16_1_3_group(ctx, N)
+    r16_2(ctx, N)
+    r16_3_state(ctx, N)
+    r16_4(ctx, N)
+
+
+class Names:
+    """Attribute names of the groupby machinery, derived from the code (not frozen):
+    value / key fields from ``step``, the group's key and state fields from
+    ``_Grouper.__init__``, the live-group field from the liveness test, the target-key field
+    from the parent's advance."""
+
+    def __init__(self, ctx):
+        st = ctx.unit("itertools._GroupByState.step")
+        self.value = self.key = None
+        pulled = keyed = None
+        for s_ in own_nodes(st.node):
+            if isinstance(s_, ast.Assign) and isinstance(s_.value, ast.Await) and isinstance(s_.value.value, ast.Call):
+                c = s_.value.value
+                tgt = s_.targets[0]
+                if norm(c.func).endswith("anext") and isinstance(tgt, ast.Name):
+                    pulled = tgt.id
+                elif isinstance(tgt, ast.Name) and len(c.args) == 1 and isinstance(c.args[0], ast.Name):
+                    keyed = tgt.id
+        for s_ in own_nodes(st.node):
+            if isinstance(s_, ast.Assign):
+                pairs = []
+                for t in s_.targets:
+                    if isinstance(t, ast.Tuple) and isinstance(s_.value, ast.Tuple):
+                        pairs += list(zip(t.elts, s_.value.elts))
+                    else:
+                        pairs.append((t, s_.value))
+                for t, v in pairs:
+                    if isinstance(t, ast.Attribute) and norm(t.value) == "self" and isinstance(v, ast.Name):
+                        if v.id == pulled:
+                            self.value = t.attr
+                        if v.id == keyed:
+                            self.key = t.attr
+        g = ctx.pkg.cls("itertools._Grouper")
+        init = g.methods.get("__init__")
+        self.group_key = self.group_state = None
+        if init is not None:
+            ps = init.param_names()
+            for s_ in own_nodes(init.node):
+                if isinstance(s_, ast.Assign) and isinstance(s_.targets[0], ast.Attribute) and isinstance(s_.value, ast.Name):
+                    if len(ps) > 1 and s_.value.id == ps[1]:
+                        self.group_key = s_.targets[0].attr
+                    if len(ps) > 2 and s_.value.id == ps[2]:
+                        self.group_state = s_.targets[0].attr
+        adv = ctx.unit("itertools.GroupBy.__anext__")
+        # live-group field: the state attribute that receives the freshly built group
+        self.live = None
+        group_names = set()
+        for s_ in own_nodes(adv.node):
+            if isinstance(s_, ast.Assign) and isinstance(s_.value, ast.Call) and norm(s_.value.func) == "_Grouper":
+                for t in s_.targets:
+                    if isinstance(t, ast.Attribute):
+                        self.live = t.attr
+                    if isinstance(t, ast.Name):
+                        group_names.add(t.id)
+        for s_ in own_nodes(adv.node):
+            if self.live is None and isinstance(s_, ast.Assign) and isinstance(s_.value, ast.Name) and s_.value.id in group_names:
+                for t in s_.targets:
+                    if isinstance(t, ast.Attribute):
+                        self.live = t.attr
+        if self.live is None:
+            for meth in g.methods.values():
+                for c in own_nodes(meth.node):
+                    if isinstance(c, ast.Compare) and isinstance(c.ops[0], (ast.Is, ast.IsNot)):
+                        sides = [c.left, c.comparators[0]]
+                        if any(isinstance(x, ast.Name) and x.id == "self" for x in sides):
+                            for x in sides:
+                                if isinstance(x, ast.Attribute):
+                                    self.live = x.attr
+        if self.live is None:
+            for s_ in own_nodes(adv.node):
+                if isinstance(s_, ast.Assign) and isinstance(s_.value, ast.Constant) and s_.value.value is None:
+                    for t in s_.targets:
+                        if isinstance(t, ast.Attribute):
+                            self.live = t.attr
+        # target-key field: the other state attribute the advance stores
+        self.target = None
+        stored = set()
+        for s_ in own_nodes(adv.node):
+            if isinstance(s_, ast.Assign):
+                for t in s_.targets:
+                    for x in ast.walk(t):
+                        if isinstance(x, ast.Attribute) and isinstance(x.ctx, ast.Store):
+                            stored.add(x.attr)
+        stored.discard(self.live)
+        if len(stored) == 1:
+            self.target = stored.pop()
+        missing = [k for k, v in vars(self).items() if v is None]
+        if missing:
+            raise AnalysisError(f"groupby machinery: could not derive the attribute(s) {missing} (anchor moved)")
 
 
 def _is_state_expr(e: ast.AST) -> bool:
     return isinstance(e, ast.Name) and e.id == "state" or norm(e) == "self._state"
 
 
-def r16_1_3_group(ctx) -> None:
+def r16_1_3_group(ctx, N) -> None:
     u = ctx.unit("itertools._Grouper.__anext__")
     cfg = cfg_of(u)
     main = [n for n in cfg.nodes if not n.tag]
     live_tests = [n for n in main if n.kind == "branch" and isinstance(n.ast, ast.Compare) and len(n.ast.ops) == 1
-                  and isinstance(n.ast.ops[0], (ast.Is, ast.IsNot)) and "current_group" in norm(n.ast)
+                  and isinstance(n.ast.ops[0], (ast.Is, ast.IsNot)) and N.live in norm(n.ast)
                   and any(isinstance(x, ast.Name) and x.id == "self" for x in (n.ast.left, n.ast.comparators[0]))]
     ctx.check(len(live_tests) >= 1, "R16.1", u, "__anext__", "the group tests whether it is still the live group")
     cursor = [n for n in main if (n.kind == "await" and any(a[0] == "libcoro" and "_GroupByState" in a[1]
                                                             for a in ctx.vals.expr(u, n.info.get("value"), n)))
               or (n.kind == "call" and isinstance(n.ast.func, ast.Attribute) and n.ast.func.attr in ("consume_value", "step", "maybe_step"))  # type: ignore[union-attr]
-              or (n.kind == "attr" and n.ast.attr in ("current_key", "_current_value"))]  # type: ignore[union-attr]
+              or (n.kind == "attr" and n.ast.attr in (N.key, N.value))]  # type: ignore[union-attr]
     ctx.count("cursor_uses", len(cursor))
 
     def live_edge(t: Node) -> str:
@@ -89,7 +182,8 @@ def r16_1_3_group(ctx) -> None:
     # R16.3: consume guarded by key equality
     consumes = [n for n in main if n.kind == "call" and isinstance(n.ast.func, ast.Attribute) and n.ast.func.attr == "consume_value"]  # type: ignore[union-attr]
     key_tests = [n for n in main if n.kind == "branch" and isinstance(n.ast, ast.Compare) and len(n.ast.ops) == 1
-                 and isinstance(n.ast.ops[0], (ast.Eq, ast.NotEq)) and "_target_key" in norm(n.ast) and "current_key" in norm(n.ast)]
+                 and isinstance(n.ast.ops[0], (ast.Eq, ast.NotEq)) and f".{N.group_key}" in norm(n.ast)
+                 and f".{N.key}" in norm(n.ast)]
     ctx.check(bool(consumes) and bool(key_tests), "R16.3", u, "__anext__", "the group compares its key with the cursor's key before consuming")
 
     def same_edge(t: Node) -> str:
@@ -115,12 +209,12 @@ def r16_1_3_group(ctx) -> None:
         ctx.check(bool(rs) and not leaks, "R16.3", u, t, "an item of another key ends the group and stays with the cursor", node=t)
 
 
-def r16_2(ctx) -> None:
+def r16_2(ctx, N) -> None:
     u = ctx.unit("itertools.GroupBy.__anext__")
     cfg = cfg_of(u)
     main = [n for n in cfg.nodes if not n.tag]
     stores = [n for n in main if n.kind == "store" and any(
-        isinstance(t, ast.Attribute) and t.attr == "current_group" for tt in n.info.get("targets", [])
+        isinstance(t, ast.Attribute) and t.attr == N.live for tt in n.info.get("targets", [])
         for t in ([tt] + (list(tt.elts) if isinstance(tt, ast.Tuple) else [])))]
     awaits = [n for n in main if n.kind == "await"]
     clears = [s for s in stores if isinstance(s.info.get("value"), ast.Constant) and s.info["value"].value is None]
@@ -155,16 +249,16 @@ def r16_2(ctx) -> None:
     # scan loop (R16.3)
     loops = [n for n in own_nodes(u.node) if isinstance(n, ast.While)]
     ok = len(loops) == 1 and isinstance(loops[0].test, ast.Compare) and isinstance(loops[0].test.ops[0], ast.Eq) \
-        and "current_key" in norm(loops[0].test) and "target_key" in norm(loops[0].test) \
+        and f".{N.key}" in norm(loops[0].test) and "target" in norm(loops[0].test) \
         and any(isinstance(x, ast.Await) and norm(x.value).endswith(".step()") for b in loops[0].body for x in ast.walk(b))
     ctx.check(ok, "R16.3", u, loops[0] if loops else "__anext__", "the advance skips (steps over) the rest of the "
               "previous run: while the cursor key equals the previous target key")
     tstores = [n for n in main if n.kind == "store" and any(
-        isinstance(x, ast.Attribute) and x.attr == "target_key" and isinstance(x.ctx, ast.Store)
+        isinstance(x, ast.Attribute) and x.attr == N.target and isinstance(x.ctx, ast.Store)
         for t in n.info.get("targets", []) for x in ast.walk(t))]
     scan_tests = [n for n in main if n.kind == "branch" and isinstance(n.ast, ast.Compare) and len(n.ast.ops) == 1
-                  and isinstance(n.ast.ops[0], (ast.Eq, ast.NotEq)) and "current_key" in norm(n.ast)
-                  and "target_key" in norm(n.ast) and any(k == "loop" for (k, _a) in n.regions)]
+                  and isinstance(n.ast.ops[0], (ast.Eq, ast.NotEq)) and f".{N.key}" in norm(n.ast)
+                  and any(k == "loop" for (k, _a) in n.regions)]
     no_target = [n for n in main if n.kind == "handler" and "AttributeError" in norm(n.info.get("type"))]
 
     def scan_exit(t) -> str:
@@ -177,23 +271,43 @@ def r16_2(ctx) -> None:
         ctx.check(path is None, "R16.3", u, ts, "a new group starts only after the scan found a key different from the "
                   "previous target key (or there is no previous group): the unread rest of a partly consumed run is "
                   "never re-issued as a new group", node=ts, witness=pretty_path(path))
-    ok = len(tstores) == 1 and "current_key" in norm(tstores[0].info.get("value"))
+    ok = len(tstores) == 1
+    if ok:
+        tv = tstores[0].info.get("value")
+        if isinstance(tv, ast.Name):
+            from .common import name_value
+            tv = name_value(ctx, u, cfg, tstores[0], tv.id) or tv
+        ok = f".{N.key}" in norm(tv)
     ctx.check(ok, "R16.3", u, tstores[0] if tstores else "__anext__", "the new target key is the key of the first item of the new run")
 
 
-def r16_3_state(ctx) -> None:
+def r16_3_state(ctx, N) -> None:
     cv = ctx.unit("itertools._GroupByState.consume_value")
-    swaps = [s for s in own_nodes(cv.node) if isinstance(s, ast.Assign) and isinstance(s.targets[0], ast.Tuple)]
-    ok = len(swaps) == 1 and [norm(e) for e in swaps[0].value.elts] == ["self._current_value", "self._sentinel"] \
-        and norm(swaps[0].targets[0].elts[1]) == "self._current_value"
-    rets = [n for n in own_nodes(cv.node) if isinstance(n, ast.Return)]
-    ok = ok and len(rets) == 1 and norm(rets[0].value) == norm(swaps[0].targets[0].elts[0])
+    cfg = cfg_of(cv)
+    resets = [n for n in cfg.nodes if n.kind == "store" and not n.tag and any(
+        isinstance(x, ast.Attribute) and x.attr == N.value and isinstance(x.ctx, ast.Store)
+        for t in n.info.get("targets", []) for x in ast.walk(t))]
+    rets = [n for n in cfg.nodes if n.kind == "return" and not n.tag]
+    ok = len(resets) == 1 and len(rets) == 1 and "_sentinel" in norm(resets[0].info.get("value"))
+    if ok:
+        rv = rets[0].info.get("value")
+        # the returned value is the field's content read before the reset
+        if isinstance(rv, ast.Name):
+            from asl.flow import reaching
+            defs = reaching(cfg).defs_at(rets[0], rv.id)
+            vals = [norm(d.info.get("value")) for d in defs if d.kind == "store"]
+            ok = bool(vals) and all(f"self.{N.value}" in v for v in vals)
+            reads = [d for d in defs if d.kind == "store"]
+            # read happens before (or together with) the reset
+            ok = ok and all(d.id <= resets[0].id for d in reads)
+        else:
+            ok = False
     ctx.check(ok, "R16.3", cv, "consume_value", "taking the item replaces it by the sentinel (an item is handed out once)")
     ms = ctx.unit("itertools._GroupByState.maybe_step")
     cfg = cfg_of(ms)
     steps = [n for n in cfg.nodes if n.kind == "await" and not n.tag]
     tests = [n for n in cfg.nodes if n.kind == "branch" and isinstance(n.ast, ast.Compare) and isinstance(n.ast.ops[0], (ast.Is, ast.IsNot))
-             and "_current_value" in norm(n.ast) and "_sentinel" in norm(n.ast)]
+             and f".{N.value}" in norm(n.ast) and "_sentinel" in norm(n.ast)]
     ok = len(steps) == 1 and len(tests) == 1
     if ok:
         t = tests[0]
@@ -201,26 +315,36 @@ def r16_3_state(ctx) -> None:
         path = find_path(cfg.entry, lambda x: x is steps[0], edge_ok=lambda a, lab, b: lab not in ("e", "p") and not (a is t and lab == empty_edge))
         ok = path is None
     ctx.check(ok, "R16.3", ms, "maybe_step", "the cursor advances only when no unconsumed item is held (an item is never overwritten)")
+    # every other place that steps the cursor without the scan loop is guarded the same way
+    g = ctx.unit("itertools._Grouper.__anext__")
+    gcfg = cfg_of(g)
+    for a in [n for n in gcfg.nodes if n.kind == "await" and not n.tag and norm(n.info.get("value")).endswith(".step()")]:
+        gtests = [n for n in gcfg.nodes if n.kind == "branch" and isinstance(n.ast, ast.Compare)
+                  and isinstance(n.ast.ops[0], (ast.Is, ast.IsNot)) and f".{N.value}" in norm(n.ast) and "_sentinel" in norm(n.ast)]
+        path = find_path(gcfg.entry, lambda x, a=a: x is a, edge_ok=lambda p, lab, b: lab not in ("e", "p") and not (
+            p in gtests and lab == ("t" if isinstance(p.ast.ops[0], ast.Is) else "f")))
+        ctx.check(path is None and bool(gtests), "R16.3", g, a, "a group steps the cursor only when no unconsumed item is held", node=a)
     st = ctx.unit("itertools._GroupByState.step")
     cfg = cfg_of(st)
     awaits = [n for n in cfg.nodes if n.kind == "await" and not n.tag]
     pubs = [n for n in cfg.nodes if n.kind == "store" and not n.tag and any(
-        isinstance(x, ast.Attribute) and x.attr in ("_current_value", "current_key")
+        isinstance(x, ast.Attribute) and x.attr in (N.value, N.key) and isinstance(x.ctx, ast.Store)
         for t in n.info.get("targets", []) for x in ast.walk(t))]
-    ok = len(awaits) == 2 and len(pubs) == 1
+    ok = len(awaits) == 2 and len(pubs) >= 1
     if ok:
-        after = reachable([x for (lab, x) in pubs[0].succ if lab == "n"], edge_ok=lambda a, lab, b: lab not in ("e", "p"))
-        ok = not any(n.kind == "await" for n in after)
-        attrs = {x.attr for t in pubs[0].info["targets"] for x in ast.walk(t) if isinstance(x, ast.Attribute)}
-        ok = ok and {"_current_value", "current_key"} <= attrs
+        attrs = {x.attr for p_ in pubs for t in p_.info["targets"] for x in ast.walk(t) if isinstance(x, ast.Attribute)}
+        ok = {N.value, N.key} <= attrs
+        for p_ in pubs:
+            path = find_path(p_, lambda x: x.kind == "await", edge_ok=lambda a, lab, b: lab not in ("e", "p"))
+            ok = ok and path is None
     ctx.check(ok, "R16.3", st, pubs[0] if pubs else "step", "item and key are published together after the key function "
-              "has returned (no state in which the cursor holds an item with a stale key)")
+              "has returned (no suspension point at which the cursor holds an item with a stale key)")
     order = [norm(a.info.get("value")) for a in awaits]
-    ctx.check(len(order) == 2 and "anext" in order[0] and "_key_func" in order[1], "R16.3", st, "step",
+    ctx.check(len(order) == 2 and "anext" in order[0] and "anext" not in order[1], "R16.3", st, "step",
               "the key function is applied to the freshly pulled item", witness=str(order))
 
 
-def r16_4(ctx) -> None:
+def r16_4(ctx, N) -> None:
     for short in ("itertools._Grouper", "itertools.GroupBy", "itertools._GroupByState"):
         info = ctx.pkg.cls(short)
         for m in info.methods.values():
@@ -230,8 +354,9 @@ def r16_4(ctx) -> None:
                 ctx.count("comparisons")
                 text = norm(c)
                 operands = [c.left] + list(c.comparators)
-                touches_key = any(isinstance(x, (ast.Attribute, ast.Name)) and (getattr(x, "attr", None) in KEY_NAMES or
-                                                                                  getattr(x, "id", None) in KEY_NAMES)
+                key_names = {N.key, N.group_key, N.target, "target_key", "current_key"}
+                touches_key = any(isinstance(x, (ast.Attribute, ast.Name)) and (getattr(x, "attr", None) in key_names or
+                                                                                  getattr(x, "id", None) in key_names)
                                   for o in operands for x in ast.walk(o))
                 if touches_key:
                     ctx.check(all(isinstance(o, (ast.Eq, ast.NotEq)) for o in c.ops), "R16.4", m, c,
